@@ -840,11 +840,13 @@ Section Cyclic.
   Qed.
 
   (* what a finished big-step run can be, in the domain: a tree without placeholder only for an object
-     with a finite unfolding; placeholders only when cycles are ignored; no exception but the cycle error *)
+     with a finite unfolding; placeholders only when cycles are ignored; the tree is its own copy (also with
+     placeholders, since the repair of CyclicReference.copy_from); no exception but the cycle error *)
   Definition inv_result (d : nat) (i : Z) (r : outcome) : Prop :=
     match r with
     | Built t => (has_placeholder t = false -> exists v, unfold d g i = Some v)
                  /\ (ignore_cycles o = false -> has_placeholder t = false)
+                 /\ copy t = t
     | Raised e => e = ECycle /\ ignore_cycles o = false
     | OutOfFuel => True
     end.
@@ -860,16 +862,18 @@ Section Cyclic.
                                     \/ (flagged c (IId i :: anc) = false
                                         /\ exists m, bigs d (IId i :: anc) c = (Built t, m))) (map IId l) ts ->
                 (existsb has_placeholder ts = false -> exists vs, map_opt (unfold d g) l = Some vs)
-                /\ (ignore_cycles o = false -> existsb has_placeholder ts = false)).
+                /\ (ignore_cycles o = false -> existsb has_placeholder ts = false)
+                /\ map copy ts = ts).
       { induction l as [|a l IHl]; intros ts Hd HF; simpl in HF; inversion HF; subst.
-        - split; simpl; eauto.
-        - destruct (IHl l' (fun j Hj => Hd j (or_intror Hj)) H4) as [I1 I2].
+        - repeat split; simpl; eauto.
+        - destruct (IHl l' (fun j Hj => Hd j (or_intror Hj)) H4) as [I1 [I2 I3]].
           destruct H2 as [[Hf [Hi ->]]|[Hf [m Hm]]].
-          + split; simpl; [discriminate|congruence].
-          + pose proof (IH _ _ _ _ (Hd a (or_introl eq_refl)) Hm) as [J1 J2]. split.
+          + split; [|split]; simpl; [discriminate|congruence|rewrite I3; reflexivity].
+          + pose proof (IH _ _ _ _ (Hd a (or_introl eq_refl)) Hm) as [J1 [J2 J3]]. split; [|split].
             * simpl. intros E. apply orb_false_elim in E. destruct E as [E1 E2].
               destruct (J1 E1) as [v Hv]. destruct (I1 E2) as [vs Hvs]. rewrite Hv, Hvs. eauto.
-            * simpl. intros Hi. rewrite (J2 Hi), (I2 Hi). reflexivity. }
+            * simpl. intros Hi. rewrite (J2 Hi), (I2 Hi). reflexivity.
+            * simpl. rewrite J3, I3. reflexivity. }
       change (bigs (S d) anc (IId i)) with
         (let rn := kids (bigs d (IId i :: anc)) (IId i :: anc) (expand b g (IId i)) in
          match fst rn with
@@ -882,13 +886,16 @@ Section Cyclic.
         apply kids_inv in Hk. unfold expand in Hk. unfold build in H.
         destruct (lookup g i) as [nd|] eqn:Hl; [|congruence].
         destruct nd as [s|l|l|l|kvs|cls fs].
-        * inversion Hk; subst. inversion H; subst. simpl. rewrite Hl. split; eauto.
-        * inversion H; subst. destruct (CH l ts (fun j Hj => closed_succ _ _ _ Hl Hj) Hk) as [C1 C2].
-          unfold inv_result. split; auto. intros E. destruct (C1 E) as [vs Hvs]. simpl. rewrite Hl, Hvs. simpl. eauto.
-        * inversion H; subst. destruct (CH l ts (fun j Hj => closed_succ _ _ _ Hl Hj) Hk) as [C1 C2].
-          unfold inv_result. split; auto. intros E. destruct (C1 E) as [vs Hvs]. simpl. rewrite Hl, Hvs. simpl. eauto.
-        * inversion H; subst. destruct (CH l ts (fun j Hj => closed_succ _ _ _ Hl Hj) Hk) as [C1 C2].
-          unfold inv_result. split; auto. intros E. destruct (C1 E) as [vs Hvs]. simpl. rewrite Hl, Hvs. simpl. eauto.
+        * inversion Hk; subst. inversion H; subst. simpl. rewrite Hl. repeat split; eauto.
+        * inversion H; subst. destruct (CH l ts (fun j Hj => closed_succ _ _ _ Hl Hj) Hk) as [C1 [C2 C3]].
+          unfold inv_result. split; [|split; [auto|simpl; rewrite C3; reflexivity]].
+          intros E. destruct (C1 E) as [vs Hvs]. simpl. rewrite Hl, Hvs. simpl. eauto.
+        * inversion H; subst. destruct (CH l ts (fun j Hj => closed_succ _ _ _ Hl Hj) Hk) as [C1 [C2 C3]].
+          unfold inv_result. split; [|split; [auto|simpl; rewrite C3; reflexivity]].
+          intros E. destruct (C1 E) as [vs Hvs]. simpl. rewrite Hl, Hvs. simpl. eauto.
+        * inversion H; subst. destruct (CH l ts (fun j Hj => closed_succ _ _ _ Hl Hj) Hk) as [C1 [C2 C3]].
+          unfold inv_result. split; [|split; [auto|simpl; rewrite C3; reflexivity]].
+          intros E. destruct (C1 E) as [vs Hvs]. simpl. rewrite Hl, Hvs. simpl. eauto.
         * (* dict *)
           apply Forall2_app_inv_l in Hk.
           destruct Hk as [tks [tvs [HK [HV ->]]]].
@@ -924,7 +931,7 @@ Section Cyclic.
             destruct Hin as [s [<- _]]. reflexivity. }
           assert (Hvals : forall j, In j (map snd kvs) -> lookup g j <> None).
           { intros j Hj. apply (closed_succ _ _ _ Hl). simpl. apply in_or_app. auto. }
-          destruct (CH (map snd kvs) tvs Hvals HV) as [C1 C2].
+          destruct (CH (map snd kvs) tvs Hvals HV) as [C1 [C2 C3]].
           assert (Hkeysph : existsb has_placeholder (map leaf_of keys) = false).
           { clear. induction keys as [|s keys IHk]; simpl; auto. }
           assert (Hkeysunf : exists ks, map_opt (unfold d g) (map fst kvs) = Some ks).
@@ -951,13 +958,19 @@ Section Cyclic.
               destruct (map_opt (unfold d g) (map snd kvs)) eqn:E2; try discriminate.
               destruct (IHk _ _ eq_refl eq_refl) as [ps Hps]. rewrite Hps. eauto. }
             destruct G as [ps Hps]. rewrite Hps. simpl. eauto. }
-          destruct (allow_key_edits o); inversion H; subst; simpl; split.
+          assert (Hcp : map (fun kv => (copy (fst kv), copy (snd kv))) (combine (map leaf_of keys) tvs)
+                        = combine (map leaf_of keys) tvs).
+          { rewrite map_combine. rewrite C3. f_equal.
+            clear. induction keys as [|s keys IHk]; simpl; auto. rewrite IHk. reflexivity. }
+          destruct (allow_key_edits o); inversion H; subst; simpl; (split; [|split]).
           -- intros E. apply Hunf. eapply existsb_combine_inv; [|exact E]. rewrite map_length. unfold keys.
              rewrite !map_length. lia.
           -- intros Hi. apply existsb_combine_false; auto.
+          -- rewrite Hcp. reflexivity.
           -- intros E. apply Hunf. eapply existsb_combine_inv; [|exact E]. rewrite map_length. unfold keys.
              rewrite !map_length. lia.
           -- intros Hi. apply existsb_combine_false; auto.
+          -- rewrite Hcp, D1. reflexivity.
         * exfalso. eapply no_obj_lookup; eauto.
       + (* a child raised, or ran out of depth *)
         inversion H; subst. destruct r as [t|e|]; simpl; auto.
@@ -1020,7 +1033,7 @@ Theorem cyclic_detected : forall b o g,
   forall fuel, fuel_bound b o g root <= fuel ->
     (ignore_cycles o = false -> run_builder b o g fuel root = Raised ECycle)
     /\ (ignore_cycles o = true ->
-        exists t, run_builder b o g fuel root = Built t /\ has_placeholder t = true).
+        exists t, run_builder b o g fuel root = Built t /\ has_placeholder t = true /\ copy t = t).
 Proof.
   intros b o g Hck Hh Hw Hn Hc root Hdef Hcyc fuel Hle.
   destruct (machine_terminates b o g Hck root fuel Hle) as [Hrun Hne].
@@ -1031,9 +1044,9 @@ Proof.
   { intros t -> Hph. destruct Hinv as [I1 _]. destruct (I1 Hph) as [v Hv].
     apply (acyclic_no_cycle g root); [exists (big_depth g), v; auto|auto]. }
   destruct r as [t|e|]; [| |congruence].
-  - destruct Hinv as [_ I2]. split.
+  - destruct Hinv as [_ [I2 I3]]. split.
     + intros Hi. exfalso. exact (Hnot t eq_refl (I2 Hi)).
-    + intros Hi. exists t. split; auto.
+    + intros Hi. exists t. split; auto. split; auto.
       destruct (has_placeholder t) eqn:P; auto. exfalso. exact (Hnot t eq_refl P).
   - destruct Hinv as [-> Hi]. split; auto. intros Hi'. congruence.
 Qed.
@@ -1151,7 +1164,7 @@ Proof.
   - eexists. split; vm_compute; reflexivity.
 Qed.
 
-(* D23: {frozenset({1}): 3, frozenset({2}): 4} under the default strategy: TypeError while building *)
+(* D28: {frozenset({1}): 3, frozenset({2}): 4} under the default strategy: TypeError while building *)
 Definition g_set_keys : graph :=
   [(0, PDict [(1, 5); (2, 6)]); (1, PSet [3]); (2, PSet [4]); (3, PScalar (SInt 1)); (4, PScalar (SInt 2));
    (5, PScalar (SInt 3)); (6, PScalar (SInt 4))].
@@ -1163,7 +1176,7 @@ Proof.
   repeat split; try reflexivity. exists 3%nat. eexists. vm_compute. reflexivity.
 Qed.
 
-(* D24: an instance P(a=1): the copy of its tree is not == to it (PyObj has no __eq__) *)
+(* D29: an instance P(a=1): the copy of its tree is not == to it (PyObj has no __eq__) *)
 Definition g_obj : graph := [(0, PObj "P" [("a", 1)]); (1, PScalar (SInt 1))].
 
 Theorem copy_refuted_pyobj :
@@ -1175,7 +1188,7 @@ Proof.
   eexists. repeat split; vm_compute; reflexivity.
 Qed.
 
-(* D25: l = [l] with cycles ignored: the copy's placeholder is wrapped once more and never equal *)
+(* D30: l = [l] with cycles ignored: the copy's placeholder is wrapped once more and never equal *)
 Definition g_self : graph := [(0, PList [0])].
 
 Theorem copy_refuted_placeholder :
@@ -1185,7 +1198,7 @@ Proof.
   eexists. repeat split; try (vm_compute; reflexivity). vm_compute. discriminate.
 Qed.
 
-(* D26: json.build_tree decodes bytes; D27: json.build_tree on l = [l] is a RecursionError *)
+(* D31: json.build_tree decodes bytes; D32: json.build_tree on l = [l] is a RecursionError *)
 Definition g_bytes : graph := [(0, PList [1]); (1, PScalar (SBytes "ab"))].
 
 Theorem json_refuted_bytes :
